@@ -7,7 +7,11 @@ that table, executes them against the library and a model side by side, and
 evaluates three monitors:
 
   effective-inside   at every block entry (and before every nested entry) all
-                     observers agree with the nesting model;
+                     observers agree with the nesting model; also right after
+                     an event inside the block (scopes.EVENTS: user code the
+                     library dispatches to raises and the program catches the
+                     exception inside the block), and for every nested block
+                     entered after it;
   restore            model-free: the full snapshot of all observers taken
                      before a `with` statement equals the snapshot taken after
                      it, for normal exit, exception exit and a raising enter;
@@ -48,6 +52,15 @@ RULE = ('case = one random well-nested program of `with` blocks over the 23 scop
         'documented public uses (scopes.USES: every public method of TimeIt, '
         'reads of yielded mappings / error contexts) of the object any '
         'enclosing block yielded, at arbitrary points of the block; '
+        'events at arbitrary points (scopes.EVENTS: a detour destination class / '
+        'function, a wrapped class, a change callback / _on_change / _on_bound, a '
+        'view or extension method, format, a functor body, evaluated code, the '
+        'dynamic-evaluation function, a preset-args function, a propagated '
+        'function raises and the exception is caught inside all enclosing blocks); '
+        'for 30% of the `with` statements the scope object is created ahead of '
+        'the statement (at program start, in an enclosing block before the blocks '
+        'in between are entered, or inside a block that has been left) and '
+        'entered later, for every manager; '
         'first `thread_cases` indices run 2-4 such programs concurrently '
         '(free-running with sleep(0), lock-step barriers, or token scheduler with '
         'LINE events in the scope implementation files). Non-trivial = at least 3 '
@@ -55,6 +68,7 @@ RULE = ('case = one random well-nested program of `with` blocks over the 23 scop
         'distinct by the nested sequence of (manager, exit kind).')
 REQUIRED_COUNTERS = ['model_checks', 'restore_checks', 'restore_checks_exc_exit',
                      'yielded_uses', 'argument_unchanged_checks', 'view_calls',
+                     'events_raised', 'scopes_entered_late',
                      'nested_same_dict_option',
                      'fresh_thread_checks', 'thread_model_checks',
                      'thread_checks_while_other_in_scope']
@@ -77,6 +91,12 @@ ASSUMPTIONS = [
     'reads of yielded mappings) are not documented to change any scoped '
     'setting: the model state is unchanged by them; only an exception from a '
     'use and the unchanged restore / effective-inside laws are judged',
+    'creating a scope object without entering it is not documented to have any '
+    'effect (every manager is documented as a context manager: its setting is '
+    'effective "inside the block"); a scope object is entered at most once',
+    'an exception raised by user code the library dispatches to and caught '
+    'inside the block is not documented to change any scoped setting; how many '
+    'calls of an event raise is not judged',
 ]
 LEVEL = 'exploration'
 
